@@ -550,7 +550,25 @@ impl ErasedList {
     /// Both `self` and `other` must have the same element type.
     ///
     pub unsafe fn concat(&self, other: &Self) -> Self {
-        let a = self.0.lock().unwrap();
+        // If both operands are the same list we can only lock it once.
+        if Arc::ptr_eq(&self.0, &other.0) {
+            let a = self.0.lock().unwrap();
+
+            let new = Self::new(a.vtable.clone());
+            let mut raw = new.0.lock().unwrap();
+
+            // SAFETY: self and other are the same list
+            unsafe { raw.extend(&a) };
+            // SAFETY: self and other are the same list
+            unsafe { raw.extend(&a) };
+
+            drop(raw);
+            return new;
+        }
+
+        // Both operands are locked at the same time so that the result is
+        // the concatenation of the two lists at one point in time.
+        let (a, b) = Self::lock_both(self, other);
 
         let new = Self::new(a.vtable.clone());
         let mut raw = new.0.lock().unwrap();
@@ -558,15 +576,10 @@ impl ErasedList {
         // SAFETY: self and other have the same element type
         unsafe { raw.extend(&a) };
 
-        // This drop is important in the case that self == other
-        // We need to ensure we don't lock the mutex twice
-        drop(a);
-
-        let b = other.0.lock().unwrap();
-
         // SAFETY: raw and b have the same element type
         unsafe { raw.extend(&b) };
 
+        drop(a);
         drop(b);
 
         drop(raw);
